@@ -189,6 +189,14 @@ fn lists(pool: &[&str], min_len: usize, max_len: usize, out: &mut Vec<Vec<String
     }
 }
 
+fn gcd_usize(a: usize, b: usize) -> usize {
+    if b == 0 {
+        a
+    } else {
+        gcd_usize(b, a % b)
+    }
+}
+
 pub fn c11_inputs(ev: Ev) -> Vec<String> {
     let frac = ev.has_point();
     let pool6: Vec<&str> = if frac {
@@ -227,6 +235,65 @@ pub fn c11_inputs(ev: Ev) -> Vec<String> {
         // argument expressions, nesting
         out.push(format!("{}(1+2,3*4,2^3)", n));
         out.push(format!("{}({}(1,2),{}(3,4))", n, n, n));
+    }
+    // long lists (9..26, 32, 33 distinct values) in a finite family of structured orders: identity, reverse,
+    // every rotation, every adjacent transposition, every "one element moved to the front", every stride
+    // permutation, interleave and organ-pipe — order independence beyond the lengths whose permutations
+    // can be enumerated completely
+    let agg_names: Vec<&str> = if ev == Ev::I64 { vec!["min", "max", "avg", "med", "median", "gcd", "lcm"] } else { vec!["min", "max", "avg", "med", "median"] };
+    for n in (9usize..=26).chain([32usize, 33]) {
+        let base: Vec<i64> = (1..=n as i64).map(|i| i * 3 - 20).collect();
+        let mut perms: Vec<Vec<i64>> = Vec::new();
+        perms.push(base.clone());
+        perms.push(base.iter().rev().cloned().collect());
+        for r in 1..n {
+            let mut p = base.clone();
+            p.rotate_left(r);
+            perms.push(p);
+        }
+        for i in 0..n - 1 {
+            let mut p = base.clone();
+            p.swap(i, i + 1);
+            perms.push(p);
+            let mut q = base.clone();
+            let x = q.remove(i + 1);
+            q.insert(0, x);
+            perms.push(q);
+        }
+        for k in 2..n {
+            if gcd_usize(k, n) == 1 {
+                perms.push((0..n).map(|i| base[(i * k) % n]).collect());
+            }
+        }
+        let mut inter: Vec<i64> = Vec::new();
+        let (mut lo, mut hi) = (0usize, n - 1);
+        while lo <= hi {
+            inter.push(base[lo]);
+            if lo != hi {
+                inter.push(base[hi]);
+            }
+            lo += 1;
+            if hi == 0 {
+                break;
+            }
+            hi -= 1;
+        }
+        perms.push(inter.clone());
+        let mut organ: Vec<i64> = base.iter().step_by(2).cloned().collect();
+        organ.extend(base.iter().skip(1).step_by(2).rev().cloned());
+        perms.push(organ);
+        for p in &perms {
+            let args = p.iter().map(|v| if *v < 0 { format!("(-{})", -v) } else { v.to_string() }).collect::<Vec<_>>().join(",");
+            for name in &agg_names {
+                if (*name == "lcm") && n > 12 {
+                    continue;
+                }
+                let s = format!("{}({})", name, args);
+                if s.chars().count() <= 256 {
+                    out.push(s);
+                }
+            }
+        }
     }
     // extreme magnitudes
     match ev {
